@@ -573,6 +573,57 @@ def r3(ctx: Ctx) -> None:
                     ctx.note(f"service-info helper: close {'reachable' if hit else 'not reachable'} when an instance existed before the lookup")
                 else:
                     ctx.ob("C20.R3", gi, "an instance created for this lookup is closed again on every exit (success, error, cancellation)", hit and not leaves, "the library-created instance would be leaked")
+    # ---- mDNS outcome "error": whatever goes wrong while starting or querying mDNS must reach the decision tree as
+    # ResolveAPIError - that is the only class it absorbs before falling back to the OS resolver (checked in R1)
+    def _is_resolve_error(e: "ast.expr | None") -> bool:
+        if not isinstance(e, ast.Call):
+            return False
+        name = norm(e.func).split(".")[-1]
+        seen: set[str] = set()
+        todo = [name]
+        while todo:
+            k = todo.pop()
+            if k == "ResolveAPIError":
+                return True
+            if k in seen or k not in ctx.repo.classes:
+                continue
+            seen.add(k)
+            todo += [b.split(".")[-1] for b in ctx.repo.classes[k].base_names]
+        return False
+
+    def _converted_here(f: Func, c: ast.Call) -> bool:
+        for t in own_nodes(f.node):
+            if not isinstance(t, ast.Try) or not any(c in set(ast.walk(b)) for b in t.body):
+                continue
+            for h in t.handlers:
+                types = [norm(x) for x in (h.type.elts if isinstance(h.type, ast.Tuple) else [h.type])] if h.type is not None else ["BaseException"]
+                raised = [x for b in h.body for x in ast.walk(b) if isinstance(x, ast.Raise)]
+                if "Exception" in types and any(isinstance(x, ast.Raise) for x in h.body) and all(_is_resolve_error(x.exc) for x in raised):
+                    return True
+        return False
+
+    def _converted(f: Func, c: ast.Call, depth: int = 0) -> "str | None":
+        """None when every failure of call c inside f surfaces as ResolveAPIError; else the unconverted construct."""
+        if _converted_here(f, c):
+            return None
+        cal = res.callees(f, c)
+        if cal.kind in ("pkg",) and cal.funcs and depth < 4:
+            for g_ in cal.funcs:
+                for c2 in _calls(g_):
+                    c2k = res.callees(g_, c2)
+                    risky = (c2k.kind in ("pkg",) and any(x.cls is not None and x.cls.name == "ZeroconfManager" for x in c2k.funcs)) or norm(c2.func).split(".")[-1] in ("AsyncZeroconf", "Zeroconf")
+                    if risky:
+                        w = _converted(g_, c2, depth + 1)
+                        if w is not None:
+                            return w
+            return None
+        return f"{f.qualname}: {norm(c)[:50]}"
+
+    starts = [c for c in _calls(gi) if isinstance(c.func, ast.Attribute) and c.func.attr in ("get_async_zeroconf", "async_request")]
+    ctx.ob("C20.R1", gi, "mDNS start-up and request calls are located", len(starts) >= 2, f"{[norm(c)[:40] for c in starts]}")
+    for c in starts:
+        w = _converted(gi, c)
+        ctx.ob("C20.R1", gi, f"every failure of {norm(c.func)[-40:]} surfaces as ResolveAPIError (so the OS resolver is still tried)", w is None, f"not inside `except Exception: raise ResolveAPIError(...)`: {w}; any other exception class leaves async_resolve_host at once - no fall-back, later addresses unused", node=c)
     # the mDNS helper hands the caller's manager through (a fresh one only when none was given)
     mdns = ctx.repo.func(HR, "_async_resolve_host_zeroconf")
     cs = [c for c in _calls(mdns) if gi in res.callees(mdns, c).funcs]
